@@ -99,7 +99,7 @@ class HDeck(Deck):
 
     def finish(self):
         self.cells = [c.card() for c in self.hcells]
-        self.surfs = ['%d %s' % (n, t) for n, t in sorted(self.surfcards.items())]
+        self.surfs = ['%d %s' % (n, t) for n, t in sorted(self.surfcards.items()) if isinstance(n, int)]
         self.data = []
         for n, (m, star) in sorted(self.trcards.items()):
             self.data.append(('*tr%d ' if star else 'tr%d ') % n + tr_numbers(m, star))
@@ -134,6 +134,9 @@ class HDeck(Deck):
                 v = sense(abs(int(t)))
                 return v if t > 0 else ~v
             op = t[0]
+            if op == 'f':
+                v = sense(('f', abs(t[1]), t[2]))
+                return v if t[1] > 0 else ~v
             if op == '#':
                 return ~ev(t[1])
             if op == '^':
@@ -167,6 +170,8 @@ class HDeck(Deck):
         def surf_nums(t, acc):
             if isinstance(t, (int, np.integer)):
                 acc.add(abs(int(t)))
+            elif t[0] == 'f':
+                acc.add(('f', abs(t[1]), t[2]))
             elif t[0] == '#':
                 surf_nums(t[1], acc)
             elif t[0] == '^':
